@@ -1,0 +1,28 @@
+//go:build verif
+
+// Contracts for gocv (see /verif/DESIGN.md). This file contains only comments: it takes no part in
+// any build, with or without the tag.
+
+package db
+
+//@ smt (define-fun prefixLimit ((p Bytes) (l Bytes)) Bool (exists ((i Int)) (and (<= 0 i) (< i (blen p)) (= (blen l) (+ i 1)) (< (bat p i) 255) (= (bat l i) (+ (bat p i) 1)) (forall ((m Int)) (=> (and (<= 0 m) (< m i)) (= (bat l m) (bat p m)))) (forall ((m Int)) (=> (and (< i m) (< m (blen p))) (= (bat p m) 255))))))
+
+//@ func bytesPrefix [C06,C07]
+//@   ensures isnil(result) <==> (forall m :: 0 <= m && m < len(prefix) ==> prefix[m] == 255)
+//@   ensures !isnil(result) ==> prefixLimit(bytes(prefix), bytes(result))
+//@   loop 0 invariant -1 <= i && i < len(prefix) && isnil(limit)
+//@   loop 0 invariant forall m :: i < m && m < len(prefix) ==> prefix[m] == 255
+//@   loop 0 decreases i + 1
+
+// The two directions of "limit is the least upper bound of the keys with prefix p".
+//@ lemma prefix_range_lower [C06,C07]
+//@   forall p Bytes, l Bytes, k Bytes
+//@   requires prefixLimit(p, l)
+//@   requires bhasprefix(k, p)
+//@   ensures blexle(p, k) && blexlt(k, l)
+
+//@ lemma prefix_range_upper [C06,C07]
+//@   forall p Bytes, l Bytes, k Bytes
+//@   requires prefixLimit(p, l)
+//@   requires blexle(p, k) && blexlt(k, l)
+//@   ensures bhasprefix(k, p)
